@@ -27,6 +27,8 @@ for d in sorted(glob.glob("/tmp/seed*-out/C*/C*-*")):
                          "how": "selftest/confirm_seed.py in a scratch worktree of /repo (commands parsed from RUN.txt)"}
     runs = old.get("check_runs", {})
     for c, v in res.get("checks", {}).items():
+        if c in runs:
+            continue        # outcomes already in meta.json come from a later sweep (selftest/sweep.py)
         runs[c] = {"exit": v["exit"], "tier": v.get("tier", "quick"), "summary": [l for l in v["lines"] if "signature" in l or l.startswith("INCONCLUSIVE")][:3]}
     meta["check_runs"] = runs
     json.dump(meta, open(os.path.join(dst, "meta.json"), "w"), indent=1)
